@@ -503,7 +503,12 @@ class ExprMixin(Core):
         if isinstance(container, Tup):
             return z3.Or(*[self.py_eq(item, x, st) if st.mode == "code" else self.struct_eq(item, x) for x in container.items]) if container.items else z3.BoolVal(False)
         if isinstance(container, T) and container.kind == "str":
-            return z3.Contains(container.t, self.str_term(item))
+            it = self.str_term(item)
+            if z3.is_string_value(container.t) and 0 < len(container.t.as_string()) <= 64:
+                # c in "<literal>": for a one-character subject, one of the literal's characters (exact; helps the solver)
+                chars = sorted(set(container.t.as_string()))
+                return z3.If(z3.Length(it) == 1, z3.Or(*[it == z3.StringVal(ch) for ch in chars]), z3.Contains(container.t, it))
+            return z3.Contains(container.t, it)
         if isinstance(container, T) and container.kind == "V":
             # dict membership
             if st.mode == "code":
